@@ -7,7 +7,7 @@ from ..dispatch import check_any
 from .. import oracle as o
 
 ID = 'C16'
-RULE = ('the same deterministic case file is executed by harness binaries compiled for {baseline, +sse4.1, +avx, +avx2}; every output must equal the specification model and be '
+RULE = ('the same deterministic case file is executed by harness binaries compiled for {baseline, +sse4.1, +avx, +avx2, +sha+sse4.1}; every output must equal the specification model and be '
         'byte-identical across builds; SHA-224/256 one-shot at every input offset 0..31 x 0..20 blocks x tails {0,1,63}, contexts preloaded with prefixes of every length mod 64 '
         'then fed multi-block updates, BLAKE2b/2s keyed/unkeyed 0..5 blocks with every tail class, contexts embedded at offset 8 of a repr(C) struct inside a Vec, BLAKE2 byte counters preset next to 2^32/2^64/2^128 (hook), HMAC/PBKDF2/'
         'scrypt/Argon2 samples, and the public ChaCha contexts (SSE2 engine) against the portable engine for every key/nonce length, single calls and whole histories (chunked processing, seek from any position, clone); memcheck and ASan run the +avx2 build; '
@@ -15,7 +15,7 @@ RULE = ('the same deterministic case file is executed by harness binaries compil
 ASSUMPTIONS = ['host CPU executes SSE4.1/AVX/AVX2 (checked at run time; a configuration the CPU cannot run is reported, not judged)', 'spec models of C01-C11']
 FLOORS = {'evaluations': 12000, 'distinct': 3000}
 THOROUGH_ROUNDS = 8   # thorough tier: generator passes with derived seeds (runner.gen_rounds)
-CFGS = ['rel', 'sse41', 'avx', 'avx2']
+CFGS = ['rel', 'sse41', 'avx', 'avx2', 'shani']
 
 
 def gen(tier, seed):
@@ -148,7 +148,7 @@ def run(tier, seed, replay=None):
     wd = R.workdir(ID)
     casefile = os.path.join(wd, 'cases-%s-%d.txt' % (tier, seed))
     R.write_cases(casefile, lines)
-    need = {'sse41': 'sse4_1', 'avx': 'avx', 'avx2': 'avx2'}
+    need = {'sse41': 'sse4_1', 'avx': 'avx', 'avx2': 'avx2', 'shani': 'sha_ni'}
     cfgs = ['rel'] + [c for c in CFGS[1:] if cpu_supports(need[c])]
     skipped = [c for c in CFGS if c not in cfgs]
     bins = R.build_many(cfgs)
